@@ -64,10 +64,20 @@ func (e *establishLinkHandler) HandleValueAdded(inst directive.Instance, val dir
 			WithField("local-peer", vl.GetLocalPeer().String()).
 			Debug("starting peer hold-open tracking")
 		go func() {
+			// Add the reference without holding mtx: the directive controller
+			// calls our handlers while holding its own lock.
+			ref := e.di.AddReference(nil, false)
 			simhook.Yield("holdopen/acquire", e.peerID.String())
 			e.mtx.Lock()
-			e.rigidRef = e.di.AddReference(nil, false)
+			// Keep it only if links still exist and no reference is held yet:
+			// the links may be gone again, or another add may have won the race.
+			if e.valCount > 0 && e.rigidRef == nil {
+				e.rigidRef, ref = ref, nil
+			}
 			e.mtx.Unlock()
+			if ref != nil {
+				ref.Release()
+			}
 		}()
 	}
 }
